@@ -14,15 +14,24 @@
 """
 import json, re
 
-CFG_ALL = {"src": ["v", "b", "g"], "tgt": ["v", "t", "g"], "ids": ["i1", "i2", "i3", "i4", "i5", "i6"], "vars": [1, 2], "gated": ["g"]}
+IDS6 = ["i1", "i2", "i3", "i4", "i5", "i6"]
+CFG_ALL = {"src": ["v", "b", "g"], "tgt": ["v", "t", "g"], "ids": IDS6, "vars": [1, 2], "gated": ["g"]}
+CFG_ALL_T = {"src": ["v", "b", "g", "r", "h", "y", "e"], "tgt": ["v", "t", "g"], "ids": IDS6, "vars": [1, 2], "gated": ["g", "y"]}
+GATED = {"g", "y", "z"}
+SWEEP = {"src": ["s"], "tgt": ["s", "t"], "ids": ["i1", "i2"], "vars": [1, 2], "gated": []}
+SWEEP_G = {"src": ["z"], "tgt": ["t"], "ids": ["i1"], "vars": [1, 2], "gated": ["z"]}
+# router sweep: the same small edge set once per further router adapter (name -> adapter kind)
+SWEEPS = [("CrossChain_gen_router.cfg", dict(SWEEP, kinds={"s": k})) for k in ("r", "h", "e")] + \
+         [("CrossChain_gen_router_gated.cfg", dict(SWEEP_G, kinds={"z": "y"}))]
+KIND = {"v": "vote", "r": "ripple", "b": "bsc", "y": "bytom", "g": "hsc", "h": "heco", "e": "eth", "t": "eth"}
 GEN = {
     "CrossChain_gen_quick.cfg": {"src": ["v", "b"], "tgt": ["v", "t"], "ids": ["i1", "i2"], "vars": [1, 2], "gated": []},
     "CrossChain_gen_gate.cfg": {"src": ["g"], "tgt": ["t"], "ids": ["i1"], "vars": [1], "gated": ["g"]},
     "CrossChain_gen_thorough.cfg": {"src": ["v", "b", "g"], "tgt": ["v", "t"], "ids": ["i1"], "vars": [1, 2], "gated": ["g"]},
 }
-ROUTER = {0: "vote", 6: "bsc", 20: "hsc", 2: "eth"}
-UNCOVERED = ["btc", "eth", "ont", "neo", "neo3", "cosmos", "quorum", "heco", "zilliqa", "zilliqalegacy", "msc", "okex", "polygon",
-             "pixiechain", "starcoin", "harmony", "bytom", "ripple"]
+COVERED = ["vote", "ripple", "eth (Ethash seal through the verif seal hook)", "bsc", "heco", "hsc", "bytom"]
+UNCOVERED = ["btc", "ont", "neo", "neo3", "neo3legacy", "cosmos", "quorum", "zilliqa", "zilliqalegacy", "msc", "okex", "polygon",
+             "pixiechain", "starcoin", "harmony"]
 
 
 def _strip(ev):
@@ -56,7 +65,7 @@ def _why(prev, ev):
     done = set(tuple(d) for d in prev["done"])
     if ev["s"] in blk: return "src-black"
     if ev["s"] not in reg: return "src-unregistered"
-    if ev["s"] == "g" and prev["h"] < 1: return "router-inactive"
+    if ev["s"] in GATED and prev["h"] < 1: return "router-inactive"
     if not ev["ok"]: return "not-authentic"
     if (ev["s"], ev["i"]) in done: return "already-done"
     if ev["t"] in blk: return "dst-black"
@@ -65,7 +74,7 @@ def _why(prev, ev):
 
 
 def _router(name):
-    return {"v": "vote", "b": "bsc", "g": "hsc", "t": "eth"}.get(name[:1], "?")
+    return KIND.get(name[:1], "?")
 
 
 def _event_key(events, idx):
@@ -81,14 +90,18 @@ def run(ctx, pid):
     b = ctx.build("vd-xchain")
     ctx.mc("CrossChain", "CrossChain_mc_quick.cfg" if q else "CrossChain_mc_thorough.cfg", timeout=1500)
     total = distinct = 0
-    gens = ["CrossChain_gen_quick.cfg", "CrossChain_gen_gate.cfg"] + ([] if q else ["CrossChain_gen_thorough.cfg"])
+    gens = [(c, GEN[c]) for c in ["CrossChain_gen_quick.cfg", "CrossChain_gen_gate.cfg"] + ([] if q else ["CrossChain_gen_thorough.cfg"])]
+    gens += SWEEPS
     groups = {}
     diverged = 0
-    for cfg in gens:
-        edges = ctx.gen("CrossChain", cfg, "EDGE", timeout=1500)
+    cache = {}
+    for cfg, dcfg in gens:
+        if cfg not in cache:
+            cache[cfg] = ctx.gen("CrossChain", cfg, "EDGE", timeout=1500)
+        edges = cache[cfg]
         if len(edges) < 100:
             ctx.fail("too few edges from %s: %d" % (cfg, len(edges)))
-        out = ctx.driver(b, ["xc-edges", json.dumps(GEN[cfg])], input_obj=edges, timeout=3000)
+        out = ctx.driver(b, ["xc-edges", json.dumps(dcfg)], input_obj=edges, timeout=3000)
         summ = [o for o in out if o.get("summary")][0]
         if summ["edges"] != len(edges):
             ctx.fail("driver replayed %d of %d edges" % (summ["edges"], len(edges)))
@@ -99,9 +112,9 @@ def run(ctx, pid):
         for o in out:
             if o.get("mismatch"):
                 st = o["step"]
-                sig = "%s%s:%s:%s" % (st["act"], "[%s]" % ROUTER.get(o.get("router"), "?") if st["act"] == "import" else "",
+                sig = "%s%s:%s:%s" % (st["act"], "[%s]" % KIND.get(o.get("kind"), "?") if st["act"] == "import" else "",
                                       st.get("why", "-"), "+".join(o["what"]))
-                o["cfg"] = GEN[cfg]
+                o["cfg"] = dcfg
                 groups.setdefault(sig, []).append(o)
     if diverged and not groups:
         ctx.fail("%d edges diverged while re-creating their source state although no edge mismatched (nondeterminism?)" % diverged)
@@ -121,7 +134,8 @@ def run(ctx, pid):
         ctx.note("edge mismatches accepted by the %s monitor (other property / permitted deviation): %s" % (pid, drift))
     # recorded histories
     n, ln = (6, 150) if q else (60, 250)
-    events = ctx.driver(b, ["xc-record", json.dumps(CFG_ALL), str(n), str(ln)], timeout=3000)
+    rcfg = CFG_ALL if q else CFG_ALL_T
+    events = ctx.driver(b, ["xc-record", json.dumps(rcfg), str(n), str(ln)], timeout=3000)
     gov_fail = [e for e in events if e["ev"] in ("register", "quit") and e.get("fail")]
     if gov_fail:
         ctx.fail("side-chain register/quit failed in the recorded run (environment, not this property): %s" % gov_fail[0])
@@ -135,13 +149,13 @@ def run(ctx, pid):
         while start > 0 and events[start]["ev"] != "reset":
             start -= 1
         ctx.violation("trace:" + key, {"event_index": idx, "event": events[idx] if idx is not None else None,
-                      "previous": events[idx - 1] if idx else None}, replay={"kind": "xc-trace", "events": events[start:idx + 1]})
+                      "previous": events[idx - 1] if idx else None}, replay={"kind": "xc-trace", "cfg": rcfg, "events": events[start:idx + 1]})
     else:
         ctx.cov["traces_validated_against_impl"] += n
     ctx.sample({"recorded_events": [_strip(e) for e in events[1:3]], "accepted_imports_recorded": acc})
     ctx.cov["evaluations"] = total + len(events)
     ctx.cov["distinct_nontrivial"] = distinct
-    ctx.cov["routers_with_adapter"] = ["vote", "bsc", "hsc"]
+    ctx.cov["routers_with_adapter"] = COVERED
     ctx.cov["routers_uncovered"] = UNCOVERED
     return n, ln
 
@@ -155,7 +169,7 @@ def replay(ctx, pid):
         cfg = rp.get("cfg", CFG_ALL)
     else:
         steps = [dict(e, act=e["ev"]) for e in rp["events"] if e["ev"] != "reset"]
-        cfg = CFG_ALL
+        cfg = rp.get("cfg", CFG_ALL)
     events = ctx.driver(b, ["xc-steps", json.dumps(cfg)], input_obj=steps)
     ok, idx = monitor(ctx, pid, events)
     if not ok:
